@@ -1866,6 +1866,12 @@ class Interp:
                 if equal is not None:
                     fr.storev(dest, Int(int(equal == (name == 'eq')), 1))
                     return
+            if self.mode == 'mul' and (a == ('zero',) or b == ('zero',)) and not (a == ('zero',) and b == ('zero',)):
+                # `x == F::zero()` is the zero test of x
+                other_ = b if a == ('zero',) else a
+                key_ = ('is_zero', other_, where)
+                fr.storev(dest, ('bool', key_ if name == 'eq' else ('not', key_)))
+                return
             if isinstance(a, SBit) or isinstance(b, SBit):
                 sa, sb = to_sbit(a), to_sbit(b)
                 if sa is not None and sb is not None:
